@@ -97,6 +97,20 @@ class DiscrV(Val):
         return "Discr(%s)" % self.adt
 
 
+class DiscrEqV(Val):
+    """`discriminant(x) == d` (or `!=`) for an enum whose variant is not known yet: kept until it is branched on, where the
+    enum at the location is refined to variant d on the one edge and variant d is excluded on the other"""
+    __slots__ = ("discr", "value", "negate")
+
+    def __init__(self, discr, value, negate):
+        self.discr = discr
+        self.value = value
+        self.negate = negate
+
+    def __repr__(self):
+        return "DiscrEq(%s %s %s)" % (self.discr.adt, "!=" if self.negate else "==", self.value)
+
+
 class EnumV(Val):
     __slots__ = ("adt", "name", "discr", "fields", "excluded")
 
@@ -356,6 +370,8 @@ def snapshot(v, depth=0):
         return ("closure", v.defpath)
     if isinstance(v, DiscrV):
         return ("discr", v.adt)
+    if isinstance(v, DiscrEqV):
+        return ("discr-eq", v.discr.adt, v.value, v.negate)
     return ("top",)
 
 
@@ -739,6 +755,13 @@ class Engine:
                     return K(r)
             except Exception:
                 pass
+        if op in ("Eq", "Ne"):
+            for p_, q_ in ((a, b), (b, a)):
+                if isinstance(p_, DiscrV) and isinstance(q_, K) and isinstance(q_.v, int) and not isinstance(q_.v, bool):
+                    cur = self.resolve(st, load(p_.loc))
+                    if isinstance(cur, EnumV) and cur.name is None and int(q_.v) in cur.excluded:
+                        return K(op == "Ne")
+                    return DiscrEqV(p_, int(q_.v), op == "Ne")
         # short-circuit facts for booleans
         if op == "BitAnd":
             for p, q in ((a, b), (b, a)):
@@ -1039,6 +1062,55 @@ class Engine:
             fr.bi = t["otherwise"]
             return [st]
         out = []
+        if isinstance(d, DiscrEqV) and isinstance(self.resolve(st, load(d.discr.loc)), EnumV) and self.resolve(st, load(d.discr.loc)).name is not None:
+            cur = self.resolve(st, load(d.discr.loc))
+            dv = cur.discr if cur.discr is not None else self.variant_discr(cur.adt, cur.name)
+            truth = (dv == d.value) != d.negate
+            for tv, bb in targets:
+                if tv == int(truth):
+                    fr.bi = bb
+                    return [st]
+            fr.bi = t["otherwise"]
+            return [st]
+        if isinstance(d, DiscrEqV):
+            # two edges: the enum IS variant `value` / it is not
+            cur = self.resolve(st, load(d.discr.loc))
+            adt = d.discr.adt or (cur.adt if isinstance(cur, EnumV) else None)
+            table = self.enum_tables.get(strip_generics(adt or ""))
+            excluded = cur.excluded if isinstance(cur, EnumV) else frozenset()
+            idx = len(st.frames) - 1
+
+            def edge_for(truth):
+                for tv, bb in targets:
+                    if tv == int(truth):
+                        return bb
+                return t["otherwise"]
+            feasible_eq = d.value not in excluded and (table is None or d.value in table)
+            remaining = [x for x in table if x not in excluded and x != d.value] if table is not None else None
+            feasible_ne = remaining is None or bool(remaining)
+            if feasible_eq:
+                s2 = self.fork(st) if feasible_ne else st
+                f2 = s2.frames[idx]
+                d2 = self.resolve(s2, self.operand(s2, f2, t["discr"]))
+                old = load(d2.discr.loc)
+                name = table.get(d.value) if table else None
+                ev = EnumV(adt, name, d.value, old.fields if isinstance(old, EnumV) and old.name == name else {})
+                if isinstance(old, SymV):
+                    ev.fields = {0: s2.fresh(("field0", old.desc))}
+                    s2.facts[old.id] = ev
+                    s2.trace.append(Event("assume", "variant", None, (snapshot(old), name), fr.bi, t["line"], len(s2.frames), fr.body.npath if fr.body else "?"))
+                store(d2.discr.loc, ev)
+                f2.bi = edge_for(not d.negate)
+                out.append(s2)
+            if feasible_ne:
+                old = load(d.discr.loc)
+                if remaining is not None and len(remaining) == 1:
+                    store(d.discr.loc, EnumV(adt, table[remaining[0]], remaining[0], {}))
+                elif not isinstance(old, SymV):
+                    store(d.discr.loc, EnumV(adt, None, None, {}, frozenset(set(excluded) | {d.value})))
+                fr.bi = edge_for(d.negate)
+                out.append(st)
+            return out
         if isinstance(d, DiscrV):
             cur = self.resolve(st, load(d.loc))
             excluded = cur.excluded if isinstance(cur, EnumV) else frozenset()
@@ -1197,7 +1269,8 @@ class Engine:
             if res is not NotImplemented:
                 return self.finish_call(st, fr, res, dest, target, t)
         # 3. inline workspace bodies
-        if self.inline(name, rname) and (len(st.frames) < self.max_depth or self._is_leaf(self.find_body(rname) or self.find_body(name))):
+        if (self.inline(name, rname) or self._derived_pure(self.find_body(rname))) and (len(st.frames) < self.max_depth or self._is_leaf(self.find_body(rname) or self.find_body(name))
+                                                                                          or (self._derived_pure(self.find_body(rname)) and len(st.frames) < self.max_depth + 6)):
             # (a body that calls nothing cannot recurse: the depth bound, which exists to cut recursion, does not apply to it)
             body = self.find_body(rname) or self.find_body(name)
             if body is not None and body.kind != "Closure":
@@ -1214,6 +1287,11 @@ class Engine:
                 self.havoc(a)
         r = st.fresh(("ret", name, fr.bi, tuple(snapshot(a) for a in args)))
         return self.finish_call(st, fr, [(st, r)], dest, target, t)
+
+    def _derived_pure(self, body):
+        """`#[derive(PartialEq)]` / `#[derive(Default)]` of a workspace type: structural and free of effects, always analysed
+        in place (a comparison with a unit variant is then a test of the discriminant, which refines the value compared)"""
+        return body is not None and body.kind == "AssocFn" and body.j.get("mac") in (["PartialEq"], ["Default"]) and body.name in ("eq", "ne", "default")
 
     def _is_leaf(self, body):
         if body is None:
